@@ -236,7 +236,12 @@ class CmdRun:
             for iid, marks in by_inst.items():
                 flags = ("c" if node.cancelled else "") + ("f" if node.forced else "") + \
                         ("d" if node.completed else "") + ("x" if node.failed else "")
-                if broken:
+                # canonical form: states up to the first conclusive one; a record with states after it has no
+                # well-defined run-log item ("??") — whether such states are stored at all is C15's business
+                cut = next((k for k, m in enumerate(marks) if m in "DFX"), None)
+                if cut is not None and cut < len(marks) - 1:
+                    marks, item = marks[:cut + 1], "??"
+                elif broken:
                     item = self._item_alone(info, r)
                 else:
                     it = items.get(iid)
